@@ -16,7 +16,11 @@ package ifacestate_test
 //     at its very start; everything before it is done and gets undone),
 //   - "hook": the hook of run-hook task k exits non-zero,
 //   - "setup": the j-th security backend Setup call made by task k fails
-//     (connect, disconnect and setup-profiles tasks).
+//     (connect, disconnect and setup-profiles tasks),
+//   - "after": for manual connect/disconnect/forget an error-trigger appended
+//     after the whole task set (same lanes, waiting for its last task): the
+//     connection's own connect/disconnect task is done and then undone; such a
+//     failed change is followed by a restart (clause 4).
 // Tasks injected at run time (by auto-connect / auto-disconnect) are
 // enumerated as soon as they exist.
 //
@@ -256,10 +260,11 @@ type c22Suite struct {
 func (s *c22Suite) TestVerifC22Body(c *check.C) { s.body(c) }
 
 type c22Fault struct {
-	Mode string // trigger | hook | setup
+	Mode string // trigger | hook | setup | after
 	Task *state.Task
 	Key  string
 	J    int
+	Set  []*state.Task // after: the whole task set
 }
 
 func (f c22Fault) String() string {
@@ -268,6 +273,8 @@ func (f c22Fault) String() string {
 		return fmt.Sprintf("security backend Setup call #%d of task [%s] fails", f.J, f.Key)
 	case "hook":
 		return fmt.Sprintf("hook of task [%s] fails", f.Key)
+	case "after":
+		return "a task appended after the whole task set (same lanes, waiting for its last task) fails"
 	}
 	return fmt.Sprintf("task [%s] fails at its start (error-trigger wired in front)", f.Key)
 }
@@ -441,7 +448,7 @@ func (r *c22Run) registerHandlers() {
 
 type c22Snapshot struct {
 	Conns map[string]string // id -> canonical JSON of the persisted connection state
-	Repo  map[string]string // id -> canonical JSON of the dynamic attributes in the repository
+	Repo  map[string]string // id -> canonical JSON of the static and dynamic attributes in the repository
 }
 
 func c22Canon(v interface{}) string {
@@ -489,7 +496,9 @@ func (r *c22Run) snapshot() c22Snapshot {
 			panic(fmt.Sprintf("repository lists %s but cannot return it: %v", ref.ID(), err))
 		}
 		s.Repo[ref.ID()] = c22Canon(map[string]interface{}{
+			"plug-static":  c22Attrs(conn.Plug.StaticAttrs()),
 			"plug-dynamic": c22Attrs(conn.Plug.DynamicAttrs()),
+			"slot-static":  c22Attrs(conn.Slot.StaticAttrs()),
 			"slot-dynamic": c22Attrs(conn.Slot.DynamicAttrs()),
 		})
 	}
@@ -680,6 +689,31 @@ func (r *c22Run) wire(chg *state.Change, f c22Fault) {
 		r.hookMu.Unlock()
 	case "setup":
 		r.be.arm(f.Task.ID(), f.J)
+	case "after":
+		et := r.st().NewTask("error-trigger", "verif: failure after the whole task set")
+		inSet := map[string]bool{}
+		for _, t := range f.Set {
+			inSet[t.ID()] = true
+		}
+		lanes := map[int]bool{}
+		for _, t := range f.Set {
+			last := true
+			for _, h := range t.HaltTasks() {
+				if inSet[h.ID()] {
+					last = false
+				}
+			}
+			if last {
+				et.WaitFor(t)
+			}
+			for _, l := range t.Lanes() {
+				if l != 0 && !lanes[l] {
+					lanes[l] = true
+					et.JoinLane(l)
+				}
+			}
+		}
+		chg.AddTask(et)
 	}
 }
 
@@ -689,6 +723,10 @@ type c22Plan struct {
 	manual  bool
 	install string
 	remove  string
+	// manual plans: the connection concerned and whether it was connected
+	// in the repository when the operation was chosen
+	connID    string
+	wasActive bool
 }
 
 type c22Attempt struct {
@@ -725,6 +763,9 @@ func (r *c22Run) attempt(plan *c22Plan, f int) (*c22Attempt, error) {
 	a := &c22Attempt{chg: chg}
 	r.nExcluded = 0
 	faultsA := r.faultsFor(static)
+	if plan.manual && len(static) > 0 {
+		faultsA = append(faultsA, c22Fault{Mode: "after", Key: "after the whole task set", Set: static})
+	}
 	if f < len(faultsA) {
 		a.armed = &faultsA[f]
 		r.wire(chg, faultsA[f])
@@ -805,11 +846,11 @@ func (r *c22Run) context(opIdx int, plan *c22Plan, a *c22Attempt) string {
 // runPlan enumerates all failure points of the plan's change and finally runs
 // it without fault.
 func (r *c22Run) runPlan(opIdx int, plan *c22Plan) error {
-	st := r.st()
 	for f := 0; ; f++ {
 		if f > 400 {
 			panic("HARNESS: more than 400 failure points in one change")
 		}
+		st := r.st() // a restart may have replaced it
 		st.Lock()
 		before := r.snapshot()
 		syncBefore, _ := r.profileSync()
@@ -848,6 +889,10 @@ func (r *c22Run) runPlan(opIdx int, plan *c22Plan) error {
 			}
 			r.labels["fault-"+a.armed.Mode] = true
 		}
+		if failed && a.armed != nil && a.armed.Mode == "after" && r.observedForgetInactive(plan, before, after) {
+			r.logf("op %d (%s): observed: undo of the forget re-connected the inactive connection in the repository (repaired by the harness)", opIdx, plan.desc)
+			continue
+		}
 		if failed {
 			diff := append(c22DiffMaps("persisted conns", before.Conns, after.Conns), c22DiffMaps("repository", before.Repo, after.Repo)...)
 			if len(diff) > 0 {
@@ -878,6 +923,22 @@ func (r *c22Run) runPlan(opIdx int, plan *c22Plan) error {
 				}
 			}
 		}
+		if failed && a.armed != nil && a.armed.Mode == "after" {
+			// clause (4) right after a failed change whose connect/disconnect
+			// task was undone
+			r.labels["restart-after-undone-manual-change"] = true
+			if err := r.restart(opIdx); err != nil {
+				return verifkit.Violatef("%v\n-- the restart followed the failed change:\n%s", err, r.context(opIdx, plan, a))
+			}
+			r.st().Lock()
+			afterRestart := r.snapshot()
+			r.st().Unlock()
+			diff := append(c22DiffMaps("persisted conns", before.Conns, afterRestart.Conns), c22DiffMaps("repository", before.Repo, afterRestart.Repo)...)
+			if len(diff) > 0 {
+				return verifkit.Violatef("C22(1)+(4): after the failed change and a restart the connections are not what they were before the change:\n  %s\n%s",
+					strings.Join(diff, "\n  "), r.context(opIdx, plan, a))
+			}
+		}
 		if a.armed == nil {
 			if r.nExcluded > 0 {
 				// counted once per change: on its final, fault-free run
@@ -902,6 +963,53 @@ func (p *c22Plan) kindLabel() string {
 		return "auto-disconnect"
 	}
 	return strings.Fields(p.desc)[0]
+}
+
+// observedForgetInactive recognises the one synthetic situation that is
+// observed, not judged: a "forget" of a connection that was NOT connected (a
+// remembered undesired one) followed by a failure after its only task.  No
+// caller in snapd puts a task behind a forget task (the daemon gives every
+// connection its own lane).  undoDisconnect then restores the conns entry
+// (undesired) but also connects plug and slot in the repository.  The harness
+// counts it, disconnects the pair again and goes on.
+func (r *c22Run) observedForgetInactive(plan *c22Plan, before, after c22Snapshot) bool {
+	if !strings.HasPrefix(plan.desc, "forget ") || plan.wasActive {
+		return false
+	}
+	if len(c22DiffMaps("persisted conns", before.Conns, after.Conns)) != 0 {
+		return false
+	}
+	if _, was := before.Repo[plan.connID]; was {
+		return false
+	}
+	for id := range after.Repo {
+		if _, was := before.Repo[id]; !was && id != plan.connID {
+			return false
+		}
+	}
+	if _, now := after.Repo[plan.connID]; !now || len(after.Repo) != len(before.Repo)+1 {
+		return false
+	}
+	ref, err := interfaces.ParseConnRef(plan.connID)
+	if err != nil {
+		return false
+	}
+	st := r.st()
+	st.Lock()
+	defer st.Unlock()
+	repo := r.repo()
+	if err := repo.Disconnect(ref.PlugRef.Snap, ref.PlugRef.Name, ref.SlotRef.Snap, ref.SlotRef.Name); err != nil {
+		panic("HARNESS: cannot repair the repository: " + err.Error())
+	}
+	r.be.mu.Lock()
+	for _, name := range []string{ref.PlugRef.Snap, ref.SlotRef.Snap} {
+		if refs, err := repo.Connections(name); err == nil {
+			r.be.view[name] = c22SortedIDs(refs)
+		}
+	}
+	r.be.mu.Unlock()
+	r.o.Extra["observed_forget_inactive_undo_reconnects"]++
+	return true
 }
 
 // Findings confirmed against the unchanged tree (see mutants/C22/RESULTS.md
@@ -1068,7 +1176,8 @@ func (r *c22Run) planFor(opIdx int, op c22Op) *c22Plan {
 			r.labels["undesired-reconnect"] = true
 			r.o.NonTrivial = true
 		}
-		return &c22Plan{desc: "connect " + p.id(), manual: true, build: func() (*state.Change, *state.Task, []*state.Task, error) {
+		return &c22Plan{desc: "connect " + p.id(), manual: true, connID: p.id(), build: func() (*state.Change, *state.Task, []*state.Task, error) {
+			st := r.st() // a restart may have replaced it
 			ts, err := ifacestate.Connect(st, p.PlugSnap, p.Plug, p.SlotSnap, p.Slot)
 			if err != nil {
 				return nil, nil, nil, err
@@ -1085,7 +1194,8 @@ func (r *c22Run) planFor(opIdx int, op c22Op) *c22Plan {
 			return nil
 		}
 		ref := refs[pick(len(refs))]
-		return &c22Plan{desc: "disconnect " + ref.ID(), manual: true, build: func() (*state.Change, *state.Task, []*state.Task, error) {
+		return &c22Plan{desc: "disconnect " + ref.ID(), manual: true, connID: ref.ID(), wasActive: true, build: func() (*state.Change, *state.Task, []*state.Task, error) {
+			st := r.st() // a restart may have replaced it
 			conn, err := r.repo().Connection(ref)
 			if err != nil {
 				return nil, nil, nil, err
@@ -1110,7 +1220,11 @@ func (r *c22Run) planFor(opIdx int, op c22Op) *c22Plan {
 		if err != nil {
 			panic("HARNESS: " + err.Error())
 		}
-		return &c22Plan{desc: "forget " + id, manual: true, build: func() (*state.Change, *state.Task, []*state.Task, error) {
+		st.Lock()
+		_, cerr := r.repo().Connection(ref)
+		st.Unlock()
+		return &c22Plan{desc: "forget " + id, manual: true, connID: id, wasActive: cerr == nil, build: func() (*state.Change, *state.Task, []*state.Task, error) {
+			st := r.st() // a restart may have replaced it
 			ts, err := ifacestate.Forget(st, r.repo(), ref)
 			if err != nil {
 				return nil, nil, nil, err
@@ -1133,6 +1247,7 @@ func (r *c22Run) planFor(opIdx int, op c22Op) *c22Plan {
 		}
 		name := cands[pick(len(cands))]
 		return &c22Plan{desc: "install " + name, install: name, build: func() (*state.Change, *state.Task, []*state.Task, error) {
+			st := r.st() // a restart may have replaced it
 			snapsup := c22Snapsup(name)
 			chg := st.NewChange("install-snap", "install "+name)
 			setup := st.NewTask("setup-profiles", fmt.Sprintf("Setup snap %q security profiles", name))
@@ -1175,6 +1290,7 @@ func (r *c22Run) planFor(opIdx int, op c22Op) *c22Plan {
 		}
 		name := cands[pick(len(cands))]
 		return &c22Plan{desc: "remove " + name, remove: name, build: func() (*state.Change, *state.Task, []*state.Task, error) {
+			st := r.st() // a restart may have replaced it
 			snapsup := c22Snapsup(name)
 			chg := st.NewChange("remove-snap", "remove "+name)
 			auto := st.NewTask("auto-disconnect", fmt.Sprintf("Disconnect interfaces of snap %q", name))
@@ -1420,6 +1536,7 @@ func TestVerifC22(t *testing.T) {
 		Run: c22RunCase,
 		Floors: map[string]float64{
 			"fail-at-or-after-connect":         0.25,
+			"fail-at-or-after-disconnect":      0.15,
 			"fail-at-or-after-auto-connect":    0.10,
 			"fail-at-or-after-auto-disconnect": 0.08,
 			"undesired-reconnect":              0.10,
